@@ -1,4 +1,5 @@
 import Pm.Dev2Fd
+import Pm.ToBufProps
 /-! # C07 — no device behaviour can crash the daemon: the connection layer's asserts and `dbg_memstr`
 
 Scope: the four `assert`s on descriptor / connection state (`tcp_connect` and `pipe_connect`:
@@ -15,7 +16,8 @@ site `xm_used` (`assert(xm->xm_used)` in `xregex_match_sub_strdup`, reached by a
 is gone from the code (repair 7b9cc0b) and from the model: `C07_set_before_expect_harmless`.
 
 Ranking: F6 is gone (no pass starting from a state with `FdInv` reaches one of the four asserts) ▸ the hypothesis is
-needed (the F6 state does reach one) ▸ the disconnect asserts ▸ `dbg_memstr` never overflows ▸ consequences for telemetry. -/
+needed (the F6 state does reach one) ▸ the disconnect asserts ▸ `dbg_memstr` never overflows ▸ consequences for telemetry ▸
+an overrun of the device output buffer is not an abort (F33). -/
 namespace Pm.Props.C07
 open Pm.Dev2
 open Pm.Dev2.Fd
@@ -163,5 +165,50 @@ example : exDev.xmUsed = false ∧
     (stmtSetplugstate exDev default ⟨[]⟩ default (some [49]) (-1) 1 [(.on, 0)]).finished = true ∧
     hasAbort (stmtSetplugstate exDev default ⟨[]⟩ default (some [49]) (-1) 1 [(.on, 0)]).out = false ∧
     hasAbort (stmtSetresult exDev default ⟨[]⟩ 1 2 [(.success, 0)]).out = false := by decide
+
+/-! ## the overrun of `dev->to` (F33) -/
+
+/-- **A `send` that overruns the device output buffer never aborts.**  `dev->to` holds 65536 bytes (`MAX_DEV_BUF`) and is a cbuf
+    in overwrite mode: `cbuf_write` stores the text and reports in `dropped` how many of the oldest unsent bytes it overwrote.
+    For every device state, action, context and text: when the text does not fit behind what is queued
+    (`|toBuf ++ s| > 65536` — a tcp device that does not read while it floods `IAC DO x`, each answered with 3 queued bytes,
+    gets there), the statement reports the text as sent and nothing else — no abort outcome, and no telemetry line
+    (`else if (dropped > 0) err(…) else { … vpf_fun(…) }`) —, the oldest queued bytes give way (`clipTo`), the buffer is exactly
+    full and the statement waits for it to drain.  And in general (`C07_send_aborts_only_on_sort`): the only abort outcome of
+    `_process_send` is the `hostlist_sort` assertion F19, which does not depend on the buffer.
+    Before the repair 860c7b4 (finding F33) the C code had `assert(dropped == strlen(str) - written)` here — with `written ==
+    strlen(str)` always (overwrite mode stores everything) this asserted `dropped == 0`, false on every overrun
+    (`C07_send_overrun_old_assert_counterexample`): the next `send` of any script aborted powermand.  The model never had that
+    assertion as an abort site (it appended without limit; the defect was found by a mutation agent and reproduced in the
+    daemon harness), so there is no earlier model-level counterexample to point to: the reproduction is the correspondence run
+    with the telnet storm (`lib/daemon.py`, `storm`), in which the repaired code logs the overrun and goes on. -/
+theorem C07_send_overrun_never_aborts (d : Dev) (a : Action) (o : Oracle) (e : ExecCtx) (fmt s : Bytes)
+    (hp : e.processing = false) (hs : Pm.Dev2.Interp.sendText fmt e.plugs = some s) (hov : 65536 < (d.toBuf ++ s).length) :
+    (stmtSend d a o e fmt).out = [Out.sent s] ∧ hasAbort (stmtSend d a o e fmt).out = false ∧
+    (stmtSend d a o e fmt).dev = { d with toBuf := clipTo (d.toBuf ++ s) } ∧
+    (stmtSend d a o e fmt).dev.toBuf.length = 65536 ∧ (stmtSend d a o e fmt).finished = false :=
+  Pm.Dev2.ToBufP.stmtSend_overrun d a o e fmt s hp hs hov
+
+/-- the only abort outcome of `_process_send`, whatever is queued: the `hostlist_sort` assertion (F19; `sendText … = none`) on
+    the first visit of the statement -/
+theorem C07_send_aborts_only_on_sort (d : Dev) (a : Action) (o : Oracle) (e : ExecCtx) (fmt : Bytes) :
+    hasAbort (stmtSend d a o e fmt).out = true ↔ e.processing = false ∧ Pm.Dev2.Interp.sendText fmt e.plugs = none :=
+  Pm.Dev2.ToBufP.stmtSend_abort_iff d a o e fmt
+
+/-- non-vacuity: `send "l\n"` against 65536 queued bytes overruns; the statement's whole output is the record of the text -/
+example (a : Action) (o : Oracle) :
+    65536 < (Pm.Dev2.ToBufP.fullDev.toBuf ++ [108, 10]).length ∧
+    (stmtSend Pm.Dev2.ToBufP.fullDev a o Pm.Dev2.ToBufP.sendCtx [108, 10]).out = [Out.sent [108, 10]] := by
+  have h : 65536 < (Pm.Dev2.ToBufP.fullDev.toBuf ++ [108, 10]).length := by
+    rw [List.length_append, Pm.Dev2.ToBufP.fullDev_len]; decide
+  exact ⟨h, (C07_send_overrun_never_aborts _ a o _ _ _ rfl Pm.Dev2.ToBufP.sendCtx_text h).1⟩
+
+/-- what the assertion removed by 860c7b4 demanded: `dropped == strlen(str) - written`, i.e. (everything is always written)
+    `dropped == 0`; on the overrun above `dropped` is 2 -/
+theorem C07_send_overrun_old_assert_counterexample :
+    toDropped Pm.Dev2.ToBufP.fullDev.toBuf [108, 10] = 2 ∧ toOverrun Pm.Dev2.ToBufP.fullDev.toBuf [108, 10] = true := by
+  have h : toDropped Pm.Dev2.ToBufP.fullDev.toBuf [108, 10] = 2 := by
+    unfold toDropped; rw [List.length_append, Pm.Dev2.ToBufP.fullDev_len]; rfl
+  exact ⟨h, (toOverrun_iff _ _).mpr (by rw [h]; decide)⟩
 
 end Pm.Props.C07
